@@ -7,18 +7,21 @@
 (*   7 function compiled by exec INSIDE the module's own namespace (as     *)
 (*     dataclasses / namedtuple do): no source either, although the        *)
 (*     module it lives in has a file                                       *)
-(*   8 recursion six deep on one line (the interpreter prints such a frame *)
-(*     three times and then counts the rest)                               *)
+(*   8 recursion on one line, 3 to 6 frames deep depending on where the    *)
+(*     level sits (the interpreter prints such a frame three times and     *)
+(*     then counts the rest: none, "1 more time", "2 more times", ...)     *)
 (* and the kind of exception raised at the bottom.  Frames(p): the frames  *)
 (* the traceback must list - <<function name class, has source>> - in      *)
 (* order, after the driver's own frame.                                    *)
 (***************************************************************************)
 EXTENDS Naturals, Integers, Sequences
-RECURSIVE Frames(_)
-Frames(p) == IF p = <<>> THEN <<>>
-             ELSE LET k == Head(p) IN
+Deep(i, L) == 3 + ((i + L) % 4)          \* frames of a kind-8 level at position i of a program of L levels
+RECURSIVE FramesFrom(_, _)
+FramesFrom(p, i) == IF i > Len(p) THEN <<>>
+             ELSE LET k == p[i] IN
                   (IF k = 6 THEN << <<6, TRUE>>, <<6, TRUE>> >>
-                   ELSE IF k = 8 THEN [i \in 1..7 |-> <<8, TRUE>>]
-                   ELSE << <<k, k \notin {5, 7}>> >>) \o Frames(Tail(p))
+                   ELSE IF k = 8 THEN [j \in 1..Deep(i, Len(p)) |-> <<8, TRUE>>]
+                   ELSE << <<k, k \notin {5, 7}>> >>) \o FramesFrom(p, i + 1)
+Frames(p) == FramesFrom(p, 1)
 NFrames(p) == Len(Frames(p))
 =============================================================================
